@@ -1094,6 +1094,11 @@ package gldap
 // (draft-behera-ldap-password-policy-10 §6.2): SEQUENCE { controlType OCTET STRING,
 // controlValue OCTET STRING { SEQUENCE { warning [0] { timeBeforeExpiration [0] INTEGER |
 // graceAuthNsRemaining [1] INTEGER } | error [1] ENUMERATED } } }; no value when nothing is set.
+// byte coherence: go-asn1-ber serialises a child into its parent's buffer when it is appended, so a node's
+// buffer must equal the concatenated serialisation of its children as they are at return
+//@ pure coh1(p *ber.Packet) bool = G_bufdata[p.Data] == pktbytes(kid(p,0))
+//@ pure coh2(p *ber.Packet) bool = G_bufdata[p.Data] == pktbytes(kid(p,0)) + pktbytes(kid(p,1))
+//@ pure coh3(p *ber.Packet) bool = G_bufdata[p.Data] == pktbytes(kid(p,0)) + pktbytes(kid(p,1)) + pktbytes(kid(p,2))
 //@ pure bpWarn(p *ber.Packet) *ber.Packet = kid(kid(kid(p,1),0),0)
 //@ pure bpShape(p *ber.Packet) bool = nkids(p) == 2 && isOct(kid(p,1)) && nkids(kid(p,1)) == 1 && isSeq(kid(kid(p,1),0)) && nkids(kid(kid(p,1),0)) == 1
 //@ func (*gldap.ControlBeheraPasswordPolicy).Encode
@@ -1105,6 +1110,9 @@ package gldap
 //@              kid(bpWarn(result),0).ClassType == ber.ClassContext && kid(bpWarn(result),0).Tag == 0 && kid(bpWarn(result),0).Value.(int64) == c.expire
 //@   ensures  c.grace < 0 && c.expire < 0 && c.error >= 0 ==> bpShape(result) && bpWarn(result).ClassType == ber.ClassContext && bpWarn(result).TagType == ber.TypePrimitive && bpWarn(result).Tag == 1 && bpWarn(result).Value.(int8) == c.error
 //@   ensures  c.grace < 0 && c.expire < 0 && c.error < 0 ==> nkids(result) == 1
+//@   ensures  nkids(result) == 1 ==> coh1(result)
+//@   ensures  nkids(result) == 2 ==> coh2(result) && coh1(kid(result,1)) && coh1(kid(kid(result,1),0))
+//@   ensures  (c.grace >= 0 || c.expire >= 0) ==> coh1(bpWarn(result))
 //@   panics false
 //@   modifies all(ber.Packet), cell(*ber.Packet), G_bufdata, G_pktnew
 //@   tags C14 C04
@@ -1116,6 +1124,7 @@ package gldap
 //@   ensures  nkids(result) == 1 + cond(c.Criticality, 1, 0) + cond(c.ControlValue != "", 1, 0)
 //@   ensures  c.Criticality ==> isBool(kid(result,1)) && boolval(kid(result,1))
 //@   ensures  c.ControlValue != "" ==> isOct(kid(result, nkids(result)-1)) && strval(kid(result, nkids(result)-1)) == c.ControlValue
+//@   ensures  (nkids(result) == 1 ==> coh1(result)) && (nkids(result) == 2 ==> coh2(result)) && (nkids(result) == 3 ==> coh3(result))
 //@   panics false
 //@   modifies all(ber.Packet), cell(*ber.Packet), G_bufdata, G_pktnew
 //@   tags C14 C04
@@ -1123,6 +1132,7 @@ package gldap
 //@   requires c != nil
 //@   ensures  result != nil && isSeq(result) && isOct(kid(result,0)) && strval(kid(result,0)) == ControlTypeManageDsaIT
 //@   ensures  nkids(result) == 1 + cond(c.Criticality, 1, 0) && (c.Criticality ==> isBool(kid(result,1)) && boolval(kid(result,1)))
+//@   ensures  (!c.Criticality ==> coh1(result)) && (c.Criticality ==> coh2(result))
 //@   panics false
 //@   modifies all(ber.Packet), cell(*ber.Packet), G_bufdata, G_pktnew
 //@   tags C14 C04
@@ -1142,30 +1152,35 @@ package gldap
 //@ func (*gldap.ControlMicrosoftNotification).Encode
 //@   requires c != nil
 //@   ensures  result != nil && isSeq(result) && nkids(result) == 1 && isOct(kid(result,0)) && strval(kid(result,0)) == ControlTypeMicrosoftNotification
+//@   ensures  coh1(result)
 //@   panics false
 //@   modifies all(ber.Packet), cell(*ber.Packet), G_bufdata, G_pktnew
 //@   tags C14 C04
 //@ func (*gldap.ControlMicrosoftServerLinkTTL).Encode
 //@   requires c != nil
 //@   ensures  result != nil && isSeq(result) && nkids(result) == 1 && isOct(kid(result,0)) && strval(kid(result,0)) == ControlTypeMicrosoftServerLinkTTL
+//@   ensures  coh1(result)
 //@   panics false
 //@   modifies all(ber.Packet), cell(*ber.Packet), G_bufdata, G_pktnew
 //@   tags C14 C04
 //@ func (*gldap.ControlMicrosoftShowDeleted).Encode
 //@   requires c != nil
 //@   ensures  result != nil && isSeq(result) && nkids(result) == 1 && isOct(kid(result,0)) && strval(kid(result,0)) == ControlTypeMicrosoftShowDeleted
+//@   ensures  coh1(result)
 //@   panics false
 //@   modifies all(ber.Packet), cell(*ber.Packet), G_bufdata, G_pktnew
 //@   tags C14 C04
 //@ func (*gldap.ControlVChuPasswordMustChange).Encode
 //@   requires c != nil
 //@   ensures  result != nil && isSeq(result) && nkids(result) == 1 && isOct(kid(result,0)) && strval(kid(result,0)) == ControlTypeVChuPasswordMustChange
+//@   ensures  coh1(result)
 //@   panics false
 //@   modifies all(ber.Packet), cell(*ber.Packet), G_bufdata, G_pktnew
 //@   tags C14 C04
 //@ func (*gldap.ControlVChuPasswordWarning).Encode
 //@   requires c != nil
 //@   ensures  result != nil && isSeq(result) && nkids(result) == 2 && isOct(kid(result,0)) && strval(kid(result,0)) == ControlTypeVChuPasswordWarning && isOct(kid(result,1))
+//@   ensures  coh2(result)
 //@   panics false
 //@   modifies all(ber.Packet), cell(*ber.Packet), G_bufdata, G_pktnew
 //@   tags C14 C04
